@@ -3,7 +3,7 @@ import json
 import os
 import time
 
-VERIF = '/verif'
+VERIF = os.environ.get('VERIF_HOME', '/verif')
 EVIDENCE_DIR = os.environ.get('VERIF_EVIDENCE_DIR', os.path.join(VERIF, 'evidence'))
 REPLAY_DIR = os.environ.get('VERIF_REPLAY_DIR', os.path.join(VERIF, 'replay'))
 KNOWN = os.path.join(VERIF, 'known_findings.json')
